@@ -22,7 +22,7 @@
 (***************************************************************************)
 EXTENDS Identity
 
-CONSTANT MaxEdits
+CONSTANTS MaxEdits, MCBases      \* MCBases: the base contents explored (all of them in the thorough configuration)
 VARIABLES base, c, r, cache, edits, prev
 vars == <<base, c, r, cache, edits, prev>>
 
@@ -37,7 +37,7 @@ EditsOf(cc) == {m \in MutsOf(cc) : m.kind # "none" /\ (m.kind = "datum" => m.i =
                                    /\ (m.kind = "model range" => m.a = "prange" /\ m.i = 1)
                                    /\ m.kind \notin {"material name", "meta key added", "row removed", "rows swapped"}}
 
-Init == /\ base \in BaseNames /\ c = Bases[base] /\ r = R0(Bases[base])
+Init == /\ base \in (BaseNames \cap MCBases) /\ c = Bases[base] /\ r = R0(Bases[base])
         /\ cache = "empty" /\ edits = 0 /\ prev = [kind |-> "init"]
 
 Mutate(m) == /\ edits < MaxEdits
